@@ -6,24 +6,24 @@ HERE = os.path.dirname(os.path.abspath(__file__))
 
 # operator table: name -> (rust path, [shapes]); a shape is a list of A:: specs (strings)
 V = lambda n: f"A::View({n})"
-S = "A::Small"; N = "A::Nil"; P = "A::Pair"
+S = "A::View(2)"; N = "A::Nil"; P = "A::Pair"; K7 = "A::SmallC(7)"; K300 = "A::SmallC(300)"
 def SC(v): return f"A::SmallC({v})"
 M = "clvmr::more_ops::"; C = "clvmr::core_ops::"
 OPS = {
  # core
- "if":       (C+"op_if",     [[S, V(1), P], [N, S, S], [S, S]]),
- "cons":     (C+"op_cons",   [[S, P], [V(2)]]),
- "first":    (C+"op_first",  [[P], [S]]),
- "rest":     (C+"op_rest",   [[P], [V(1)]]),
- "listp":    (C+"op_listp",  [[P], [S], []]),
+ "if":       (C+"op_if",     [[V(2), V(1), P], [N, V(2), V(2)], [P, V(1), N], [SC(0), V(1), V(1)], ["A::Small", V(1), V(2)], [V(2), V(2)], [V(1), V(1), V(1), V(1)]]),
+ "cons":     (C+"op_cons",   [[V(2), P], [N, N], [V(2)], [V(1), V(1), V(1)]]),
+ "first":    (C+"op_first",  [[P], [V(2)], [], [P, P]]),
+ "rest":     (C+"op_rest",   [[P], [V(1)], [N]]),
+ "listp":    (C+"op_listp",  [[P], [V(2)], [N], [], [P, P]]),
  "raise":    (C+"op_raise",  [[S], [P], [S, S]]),
- "eq":       (C+"op_eq",     [[V(2), S], [V(3), V(3)], [S, P], [S]]),
+ "eq":       (C+"op_eq",     [[V(2), V(2)], [V(3), V(3)], [V(1), SC(5)], [V(2), SC(300)], [V(2), SC(5)], [SC(5), V(3)], [V(4), SC(70000)], [SC(256), SC(2)], ["A::Small", V(2)], [SC(128), "A::Small"], ["A::Small", "A::Small"], [V(1), V(2)], [N, V(1)], [S, P], [S]]),
  # more_ops: bytes
- "gr_bytes": (M+"op_gr_bytes", [[V(2), S], [V(2), V(3)], [P, S]]),
+ "gr_bytes": (M+"op_gr_bytes", [[V(2), V(2)], [V(2), V(3)], [V(3), V(1)], [V(1), SC(77)], [SC(256), SC(2)], [SC(2), SC(256)], [SC(128), SC(127)], [SC(300), "A::Small"], ["A::Small", SC(2)], ["A::Small", "A::Small"], ["A::Small", V(2)], [N, V(1)], [P, S]]),
  "sha256":   (M+"op_sha256",   [[], [SC(1), SC(5)], [P]]),
- "substr":   (M+"op_substr",   [[V(4), S], [V(4), S, S], [S, S, S], [V(2)], [V(4), P]]),
- "strlen":   (M+"op_strlen",   [[V(3)], [S], [P], []]),
- "concat":   (M+"op_concat",   [[V(2), S], [V(1), N, V(2)], [S, P], []]),
+ "substr":   (M+"op_substr",   [[V(4), V(1)], [V(4), V(1), V(1)], [V(5), SC(1), SC(3)], [V(4), "A::Small"], [V(5), SC(1), "A::Small"], ["A::Small", SC(1)], [V(3), V(2)], [V(2)], [V(4), P], [P, V(1)], [V(4), V(1), V(5)]]),
+ "strlen":   (M+"op_strlen",   [[V(3)], [V(16)], [N], [SC(70000)]]),
+ "concat":   (M+"op_concat",   [[V(2), V(2)], [V(1), N, V(2)], [V(3), SC(300), V(1)], [V(2)], [S, P], []]),
  # arithmetic
  "add":      (M+"op_add",      [[S, S], [V(2), S], [S, V(3), S], [P], []]),
  "subtract": (M+"op_subtract", [[S, S], [V(2), S], [S, V(2), S], [S, P], []]),
@@ -38,9 +38,9 @@ OPS = {
  "logior":   (M+"op_logior",   [[S, S], [V(2), S], [P]]),
  "logxor":   (M+"op_logxor",   [[S, S], [V(2), V(1)], []]),
  "lognot":   (M+"op_lognot",   [[S], [V(3)], [P], [S, S]]),
- "not":      (M+"op_not",      [[S], [P], [V(1)], []]),
- "any":      (M+"op_any",      [[S, P], [N, V(1)], []]),
- "all":      (M+"op_all",      [[S, P], [N, V(1)], []]),
+ "not":      (M+"op_not",      [[V(2)], [P], [N], [SC(0)], ["A::Small"], [V(1)], [], [N, N]]),
+ "any":      (M+"op_any",      [[V(2), P], [N, V(1)], [N, N, N], []]),
+ "all":      (M+"op_all",      [[V(2), P], [N, V(1)], [V(1), V(1), N], []]),
  "coinid":   (M+"op_coinid",   [[S, S, S], [P, S, S], [S, S]]),
  "modpow":   (M+"op_modpow",   [[SC(3), SC(2), SC(5)], [S, S, SC(0)], [S, V(1), S], [S, S]]),
  # crypto operators: argument-shape / cost prologues only (return before the curve arithmetic)
@@ -63,7 +63,8 @@ def shape_name(sh):
     if not sh: return "noargs"
     out = []
     for s in sh:
-        if s == S: out.append("s")
+        if s == "A::Small": out.append("sym")
+        elif s == S: out.append("v2")
         elif s == N: out.append("n")
         elif s == P: out.append("p")
         elif s.startswith("A::View"): out.append("v" + s[8:-1])
@@ -71,7 +72,7 @@ def shape_name(sh):
     return "_".join(out)
 
 def shape_text(sh):
-    names = {S: "inline integer (any value < 2^26)", N: "nil", P: "a pair"}
+    names = {N: "nil", P: "a pair", "A::Small": "inline integer of any value < 2^26"}
     out = []
     for s in sh:
         if s in names: out.append(names[s])
@@ -84,9 +85,13 @@ def gen(prefix, fname, call, maxb=12, unwind=18, ops=None):
     reg = []
     for op, (path, shapes) in OPS.items():
         if ops is not None and op not in ops: continue
+        seen = set()
         for i, sh in enumerate(shapes):
             hn = f"{prefix}_{op}_{shape_name(sh)}"
-            body = call.format(path=path, specs="&[" + ", ".join(sh) + "]", maxb=maxb)
+            if hn in seen:
+                continue
+            seen.add(hn)
+            body = call.format(path=path, specs="&[" + ", ".join(sh) + "]", maxb=maxb).replace("__OP__", op)
             lines.append(f"proof! {{ #[kani::unwind({unwind})] fn {hn}() {{ {body} }} }}\n")
             reg.append({"harness": hn, "op": op, "shape": shape_text(sh), "first": i == 0})
     open(os.path.join(HERE, "src", fname), "w").write("".join(lines))
@@ -94,5 +99,8 @@ def gen(prefix, fname, call, maxb=12, unwind=18, ops=None):
 
 R = {}
 R["c02"] = gen("c02", "gen_c02.rs", "budget_case::<{maxb}>({path}, {specs}, cost_flags());")
+R["opp"] = gen("opp", "gen_opp.rs", "probe_case({path}, {specs});")
+MODEL_OPS = ["if", "cons", "first", "rest", "listp", "raise", "eq", "gr_bytes", "strlen", "not", "any", "all", "concat", "substr"]
+R["opm"] = gen("opm", "gen_opm.rs", "model_case(\"__OP__\", {path}, {specs});", ops=MODEL_OPS)
 json.dump(R, open(os.path.join(HERE, "..", "lib", "gen_registry.json"), "w"), indent=1)
 print({k: len(v) for k, v in R.items()})
